@@ -2,7 +2,7 @@
 # usage: tools/confirm_seed.sh <PROP> <k>   -- confirms /tmp/seedout/<PROP>/patch<k>.diff in scratch worktree /tmp/wt/<PROP>
 # (demo passes unchanged, fails changed, pinned suite still 346 passed) and stores it as /verif/seeded/<PROP>_<k>/
 set -u
-P=$1; K=$2; WT=/tmp/wt/$P; SRC=/tmp/seedout/$P; DST=/verif/seeded/${P}_$K
+P=$1; K=$2; WT=${SEED_WT:-/tmp/wt/$P}; SRC=${SEED_SRC:-/tmp/seedout}/$P; DST=/verif/seeded/${P}_${SEED_TAG:-}$K
 [ -d $WT ] || git -C /repo worktree add -q --detach $WT HEAD
 git -C $WT checkout -q --detach $(git -C /repo rev-parse HEAD) 2>/dev/null
 git -C $WT checkout -- . ; 
@@ -10,9 +10,9 @@ cd $WT
 PYTHONPATH=$WT timeout 600 /venv/bin/python $SRC/demo$K.py >/dev/null 2>&1; r0=$?
 git apply $SRC/patch$K.diff || { echo "$P $K: patch does not apply on current HEAD"; exit 1; }
 PYTHONPATH=$WT timeout 600 /venv/bin/python $SRC/demo$K.py >/dev/null 2>&1; r1=$?
-PYTHONPATH=$WT /venv/bin/python -m pytest -q -p no:cacheprovider --timeout=900 tests 2>&1 | tail -1 > /tmp/seedout/$P/pytest$K.txt
+PYTHONPATH=$WT /venv/bin/python -m pytest -q -p no:cacheprovider --timeout=900 tests 2>&1 | tail -1 > $SRC/pytest$K.txt
 git checkout -- . ; rm -rf tests/.pytest_cache; find . -name __pycache__ -prune -exec rm -rf {} + 2>/dev/null
-res=$(cat /tmp/seedout/$P/pytest$K.txt)
+res=$(cat $SRC/pytest$K.txt)
 echo "$P $K: demo unchanged rc=$r0, demo changed rc=$r1, suite: $res"
 if [ $r0 -eq 0 ] && [ $r1 -ne 0 ] && echo "$res" | grep -q "346 passed"; then
   mkdir -p $DST; cp $SRC/patch$K.diff $DST/patch.diff; cp $SRC/demo$K.py $DST/demo.py
